@@ -27,6 +27,7 @@ type Bind struct {
 	Global     string // alias ("" = none)
 	InClass    bool   // declared in the task template instead of the role
 	ClassToo   bool   // also declared in the task template with another transport (role level must win)
+	AtGroup    bool   // declared on the enclosing aggregator instead of the task role (inherited by the task)
 }
 
 type Connect struct {
@@ -102,11 +103,20 @@ func run(c Case) (res vh.Result) {
 		idx[cls] = i
 		// every task sits in its own aggregator so that channels can also be declared one level up
 		fmt.Fprintf(&sb, "  - name: g%d\n", i)
-		group := ""
+		group, groupBind := "", ""
 		for _, cn := range t.Connects {
 			if cn.AtGroup {
 				group += connYAML(cn, "      ")
 			}
+		}
+		for _, b := range t.Binds {
+			if b.AtGroup && !b.InClass {
+				groupBind += bindYAML(b, b.Transport, "      ")
+			}
+		}
+		if groupBind != "" {
+			sb.WriteString("    bind:\n" + groupBind)
+			override = true
 		}
 		if group != "" {
 			sb.WriteString("    connect:\n" + group)
@@ -116,6 +126,8 @@ func run(c Case) (res vh.Result) {
 		for _, b := range t.Binds {
 			if b.InClass {
 				cb += bindYAML(b, b.Transport, "  ")
+			} else if b.AtGroup {
+				// written above, on the aggregator
 			} else {
 				rb += bindYAML(b, b.Transport, "          ")
 				if b.ClassToo {
@@ -328,6 +340,9 @@ func gen(t *rapid.T) Case {
 			if !b.InClass && rapid.IntRange(0, 3).Draw(t, "classToo") == 0 {
 				b.ClassToo = true
 			}
+			if !b.InClass && !b.ClassToo && rapid.IntRange(0, 3).Draw(t, "bindAtGroup") == 0 {
+				b.AtGroup = true
+			}
 			ts.Binds = append(ts.Binds, b)
 		}
 		c.Tasks = append(c.Tasks, ts)
@@ -405,6 +420,9 @@ func TestFixed(t *testing.T) {
 		{Host: 0, Mode: "fairmq", Binds: []Bind{{Name: "data", Transport: "zeromq", Addressing: "tcp", Global: "readout"}}},
 		{Host: 1, Mode: "fairmq", Binds: []Bind{{Name: "data", Transport: "zeromq", Addressing: "tcp", Global: "readout"}}},
 		{Host: 2, Mode: "direct", Connects: []Connect{{Name: "in", Kind: "alias", ToTask: 0, ToChan: 0, Transport: "default"}}}}}, vh.Confirmed(run))
+	vh.Fixed(t, prop, "inbound-channel-declared-on-the-aggregator", Case{Tasks: []TaskSpec{
+		{Host: 0, Mode: "fairmq", Binds: []Bind{{Name: "data", Transport: "zeromq", Addressing: "tcp", AtGroup: true}, {Name: "own", Transport: "shmem", Addressing: "tcp"}}},
+		{Host: 1, Mode: "direct", Connects: []Connect{{Name: "in", Kind: "role", ToTask: 0, ToChan: 0, Transport: "default"}, {Name: "in2", Kind: "role", ToTask: 0, ToChan: 1, Transport: "default"}}}}}, vh.Confirmed(run))
 	vh.Fixed(t, prop, "role-level-wins", Case{Tasks: []TaskSpec{
 		{Host: 0, Mode: "fairmq", Binds: []Bind{{Name: "data", Transport: "shmem", Addressing: "tcp", ClassToo: true}}},
 		{Host: 1, Mode: "fairmq", Connects: []Connect{{Name: "in", Kind: "role", ToTask: 0, ToChan: 0, Transport: "default"}}}}}, vh.Confirmed(run))
